@@ -198,15 +198,18 @@ var emptyAtRoot = []string{"uwrapoverride", "uopt", "rwrapfull", "handledmsg"}
 // nothing but the mark is taken from it.
 var emptyAsMarkRef = []string{"new", "goerr", "pkgnew", "uleafptr"}
 
-// emptyOK lists the nodes of the tree whose first string may be empty.
-func emptyOK(s *Spec) map[*Spec]bool {
-	ok := map[*Spec]bool{}
+// emptyOK lists, per node, the index of the string that may be empty.
+func emptyOK(s *Spec) map[*Spec]int {
+	ok := map[*Spec]int{}
 	for i, n := range s.Nodes() {
 		if len(n.S) > 0 && (in(n.K, emptyAnywhere) || (i == 0 && in(n.K, emptyAtRoot))) {
-			ok[n] = true
+			ok[n] = 0
+		}
+		if i == 0 && n.K == "handleddomainmsg" && len(n.S) > 1 {
+			ok[n] = 1 // the overriding message
 		}
 		if n.K == "mark" && len(n.X) == 1 && n.X[0] != nil && in(n.X[0].K, emptyAsMarkRef) && len(n.X[0].S) > 0 {
-			ok[n.X[0]] = true
+			ok[n.X[0]] = 0
 		}
 	}
 	return ok
@@ -216,8 +219,8 @@ func emptyOK(s *Spec) map[*Spec]bool {
 func SprinkleEmpty(t *rapid.T, s *Spec) {
 	ok := emptyOK(s)
 	for _, n := range s.Nodes() {
-		if ok[n] && rapid.IntRange(0, 3).Draw(t, "empty") == 0 {
-			n.S[0] = ""
+		if idx, allowed := ok[n]; allowed && rapid.IntRange(0, 3).Draw(t, "empty") == 0 {
+			n.S[idx] = ""
 		}
 	}
 }
@@ -231,7 +234,7 @@ func SpecRegularOrEmpty(s *Spec) bool {
 			continue
 		}
 		for i, x := range n.S {
-			if x == "" && (optionalEmpty(n.K, i) || (i == 0 && ok[n])) {
+			if idx, allowed := ok[n]; x == "" && (optionalEmpty(n.K, i) || (allowed && i == idx)) {
 				continue
 			}
 			if !IsRegular(x) {
